@@ -187,7 +187,8 @@ fn model(sc: &ConnScenario) -> Model {
                 m.st = St::AwaitEnc;
             }
             (St::AwaitEnc, None, Some(v)) => {
-                if matches!(v, EncVariant::Honest) {
+                // (a 16-byte secret of the client's own choosing with the honest token is an honest response too)
+                if matches!(v, EncVariant::Honest | EncVariant::SecretLen { len: 16 }) || matches!(v, EncVariant::TokenPrefix { len } if *len >= 32) || matches!(v, EncVariant::TokenExtended { extra: 0 }) {
                     m.expect.push("LoginSuccess".into());
                     m.st = St::AwaitAck;
                 } else {
@@ -416,7 +417,7 @@ pub fn check(sc: &ConnScenario, out: &ConnOutcome, rep: &mut RunReport) {
         }
     }
     // Login Success never before a valid Encryption Response
-    if out.view.first("LoginSuccess").is_some() && !steps.iter().any(|s| matches!(s, Step::Enc { variant: EncVariant::Honest })) {
+    if out.view.first("LoginSuccess").is_some() && !steps.iter().any(|s| matches!(s, Step::Enc { variant } if matches!(variant, EncVariant::Honest | EncVariant::SecretLen { len: 16 } | EncVariant::TokenExtended { extra: 0 }) || matches!(variant, EncVariant::TokenPrefix { len } if *len >= 32))) {
         rep.violate("login_success_needs_encryption_response", "Login Success without an honest Encryption Response in the script".into());
     }
     // status and login never mix
